@@ -251,7 +251,7 @@ def consts_set(tier):
                     if tier == 'quick' and v not in (m, m & ~0x7) and (k + n) % 4 != 0:
                         continue
                     # every other declaration also carries the `debug` option (option interactions)
-                    structs.append(Struct(n, fields(), default=v, default_form=form, default_sep=sep, family='CONSTDEF', debug=(k % 2 == 1)))
+                    structs.append(Struct(n, fields(), default=v, default_form=form, default_sep=sep, family='CONSTDEF', debug=(k % 2 == 1), debug_first=(k % 4 == 3)))
     return structs
 
 
@@ -599,7 +599,7 @@ def debug_structs(tier):
                     fs.reverse()
                 elif order == 2:
                     fs = fs[1:] + fs[:1]
-                out.append(Struct(n, fs, debug=True, twin=True, family='DBGN', passes=p, default=(1 if k % 4 == 0 else None)))
+                out.append(Struct(n, fs, debug=True, twin=True, family='DBGN', passes=p, default=(1 if k % 4 == 0 else None), debug_first=(k % 8 == 0)))
         # every candidate at once
         out.append(Struct(n, [mk() for mk in cs], debug=True, twin=True, family='DBGALL', passes=p))
         out.append(Struct(n, [mk() for mk in reversed(cs)], debug=True, twin=True, family='DBGALL', passes=p))
